@@ -62,6 +62,7 @@ CODES = {
     144: 'a node other than the entry node exceeds the degree bound',
     145: 'the recorded maximum node id is below an id in use',
     146: 'node ids of live points are not unique',
+    149: 'a request the running instance answered was refused with an error by a fresh instance over a copy of the same file: the persisted graph cannot be read back (e.g. a stored node reads as absent)',
     147: 'a stored full vector differs from the vector of the document',
     148: 'a live point has no node id in the points bucket',
     149: 'the bucket dump is missing',
@@ -98,3 +99,4 @@ LEVEL = {
     'technique': 'Coq proof (inductive well-formedness of the graph under insert/prune/delete; search never fails on a well-formed '
                  'graph) + well-formedness checker on the persisted graph after every batch',
 }
+CFG['rule'] = CFG['rule'] + ' ' + 'Read-back: after every batch on a bbolt configuration the requests of the step are also answered by a fresh instance over a copy of the file; an error there where the running instance answered is code 149.'
